@@ -1,7 +1,7 @@
 --------------------------- MODULE GenSborValid ---------------------------
 (* C22, G: (schema, value, expected verdict) cases.  For every schema reached by GenSborSchema
    (bases and their edits) TLC prints every value of the bounded universe the schema accepts
-   and a rotating sample of the values it rejects, each with Valid(schema, root, value) as
+   every value it rejects only because of a validation bound, and a rotating sample of the other values it rejects, each with Valid(schema, root, value) as
    computed by the specification; the harness encodes the value as a real SBOR payload, builds
    the real schema and compares validate_payload_against_schema's verdict with it. *)
 EXTENDS GenSborSchema, SborUniverse
@@ -9,6 +9,12 @@ CONSTANTS Stride, Off
 USeq == SetToSeq(Universe)
 Sampled == {USeq[i] : i \in {j \in 1..Len(USeq) : j % Stride = Off}}
 Cur == [s |-> cur, root |-> 1]
-Cases == ValidSet(Cur) \cup Sampled
+\* near misses: values that fail ONLY a validation (numeric range / length) of the schema - they are
+\* accepted by the same schema with every bound removed.  These are the values at and next to the
+\* limits; all of them are emitted, like all valid values; only the remaining (structurally
+\* wrong) values are sampled.
+Relaxed == [s |-> [i \in 1..Len(cur) |-> [cur[i] EXCEPT !.lo = NoBound, !.hi = NoBound]], root |-> 1]
+NearMiss == {x \in ValidSet(Relaxed) : ~Valid(cur, 1, x)}
+Cases == ValidSet(Cur) \cup NearMiss \cup Sampled
 EmitV == \A x \in Cases : PrintT(<<"B", ToJson([schema |-> cur, root |-> 1, x |-> x, exp |-> Valid(cur, 1, x)])>>)
 =============================================================================
